@@ -775,4 +775,167 @@ example : colAgg .min false [.int 3, .null, .int (-2), .int 7] = .int (-2) ∧
     (nonNull [.int 3, .null, .int (-2), .int 7]).all isInt = true := by
   refine ⟨by decide, by decide, by decide⟩
 
+/-! ### avg: the float arithmetic
+
+`roundQ neg n d` (the double nearest to `± n / d`) depends on the fraction only, not on its
+representation; with that, sums of exactly representable integers are exact and the final division
+is the correctly rounded exact mean. -/
+
+theorem two_pow_mul_cancel (K a b : Nat) : a * 2 ^ K ≤ b * 2 ^ K ↔ a ≤ b := by
+  constructor
+  · intro h
+    exact Nat.le_of_mul_le_mul_right h (Nat.two_pow_pos K)
+  · intro h
+    exact Nat.mul_le_mul_right _ h
+
+/-- `geScaled n d e` with the exponent shifted into the naturals by any `K ≥ -e` -/
+theorem geScaled_iff (n d : Nat) (e : Int) (K : Nat) (hK : 0 ≤ (K : Int) + e) :
+    geScaled n d e = true ↔ d * 2 ^ ((K : Int) + e).toNat ≤ n * 2 ^ K := by
+  unfold geScaled
+  by_cases he : e ≥ 0
+  · have hx : ((K : Int) + e).toNat = e.toNat + K := by omega
+    simp only [he, if_true, decide_eq_true_eq, ge_iff_le, hx, Nat.pow_add, ← Nat.mul_assoc]
+    exact (two_pow_mul_cancel K _ _).symm
+  · have hx : K = (-e).toNat + ((K : Int) + e).toNat := by omega
+    simp only [he, if_false, decide_eq_true_eq, ge_iff_le]
+    generalize ((K : Int) + e).toNat = j at hx
+    subst hx
+    rw [Nat.pow_add, ← Nat.mul_assoc]
+    exact (two_pow_mul_cancel j _ _).symm
+
+theorem bitLength_bounds (n : Nat) (hn : n ≠ 0) : 2 ^ (bitLength n - 1) ≤ n ∧ n < 2 ^ bitLength n ∧ 1 ≤ bitLength n := by
+  unfold bitLength
+  simp only [hn, if_false, Nat.add_sub_cancel]
+  exact ⟨Nat.log2_self_le hn, Nat.lt_log2_self, by omega⟩
+
+/-- `e` is ⌊log₂ (n/d)⌋, with exponents shifted by `K` -/
+def IsFloorLog (n d : Nat) (e : Int) (K : Nat) : Prop :=
+  d * 2 ^ ((K : Int) + e).toNat ≤ n * 2 ^ K ∧ n * 2 ^ K < d * 2 ^ ((K : Int) + e + 1).toNat
+
+theorem isFloorLog_unique (n d : Nat) (e e' : Int) (K : Nat) (hK : 0 ≤ (K : Int) + e) (hK' : 0 ≤ (K : Int) + e')
+    (h : IsFloorLog n d e K) (h' : IsFloorLog n d e' K) : e = e' := by
+  have key : ∀ (a b : Int), 0 ≤ (K : Int) + a → IsFloorLog n d a K → IsFloorLog n d b K → ¬ a < b := by
+    intro a b ha hA hB hlt
+    have hle : ((K : Int) + a + 1).toNat ≤ ((K : Int) + b).toNat := by omega
+    have hp : 2 ^ ((K : Int) + a + 1).toNat ≤ 2 ^ ((K : Int) + b).toNat := Nat.pow_le_pow_right (by decide) hle
+    have h1 : d * 2 ^ ((K : Int) + a + 1).toNat ≤ d * 2 ^ ((K : Int) + b).toNat := Nat.mul_le_mul_left _ hp
+    have h2 := hA.2
+    have h3 := hB.1
+    omega
+  have h1 := key e e' hK h h'
+  have h2 := key e' e hK' h' h
+  omega
+
+theorem floorLog2Q_spec (n d : Nat) (hn : n ≠ 0) (hd : d ≠ 0) (K : Nat) (hK : bitLength d + 1 ≤ K) :
+    0 ≤ (K : Int) + floorLog2Q n d ∧ IsFloorLog n d (floorLog2Q n d) K := by
+  obtain ⟨hn1, hn2, hn3⟩ := bitLength_bounds n hn
+  obtain ⟨hd1, hd2, hd3⟩ := bitLength_bounds d hd
+  generalize hA : bitLength n = a at *
+  generalize hB : bitLength d = b at *
+  -- K + e0 + 1: above n/d
+  have hup : n * 2 ^ K < d * 2 ^ (K + a - b + 1) := by
+    have e2 : K + a = (b - 1) + (K + a - b + 1) := by omega
+    have hmul : 2 ^ (b - 1) * 2 ^ (K + a - b + 1) ≤ d * 2 ^ (K + a - b + 1) := Nat.mul_le_mul_right _ hd1
+    have hlt : n * 2 ^ K < 2 ^ a * 2 ^ K := Nat.mul_lt_mul_of_lt_of_le hn2 (Nat.le_refl _) (Nat.two_pow_pos K)
+    rw [← Nat.pow_add, Nat.add_comm a K] at hlt
+    rw [← Nat.pow_add, ← e2] at hmul
+    omega
+  -- K + e0 - 1: at most n/d
+  have hlow : d * 2 ^ (K + a - b - 1) ≤ n * 2 ^ K := by
+    have e2 : K + a - 1 = b + (K + a - b - 1) := by omega
+    have hlt : d * 2 ^ (K + a - b - 1) < 2 ^ b * 2 ^ (K + a - b - 1) :=
+      Nat.mul_lt_mul_of_lt_of_le hd2 (Nat.le_refl _) (Nat.two_pow_pos _)
+    rw [← Nat.pow_add, ← e2] at hlt
+    have hmul : 2 ^ (a - 1) * 2 ^ K ≤ n * 2 ^ K := Nat.mul_le_mul_right _ hn1
+    rw [← Nat.pow_add] at hmul
+    have e3 : K + a - 1 = a - 1 + K := by omega
+    rw [e3] at hlt
+    omega
+  unfold floorLog2Q
+  simp only [hA, hB]
+  by_cases hge : geScaled n d ((a : Int) - (b : Int)) = true
+  · simp only [hge, if_true]
+    refine ⟨by omega, ?_, ?_⟩
+    · exact (geScaled_iff n d _ K (by omega)).1 hge
+    · have : ((K : Int) + ((a : Int) - (b : Int)) + 1).toNat = K + a - b + 1 := by omega
+      rw [this]
+      exact hup
+  · have hge' : geScaled n d ((a : Int) - (b : Int)) = false := by simpa using hge
+    simp only [hge', Bool.false_eq_true, if_false]
+    refine ⟨by omega, ?_, ?_⟩
+    · have : ((K : Int) + ((a : Int) - (b : Int) - 1)).toNat = K + a - b - 1 := by omega
+      rw [this]
+      exact hlow
+    · have hnot := mt (geScaled_iff n d ((a : Int) - (b : Int)) K (by omega)).2 hge
+      have : ((K : Int) + ((a : Int) - (b : Int) - 1) + 1).toNat = ((K : Int) + ((a : Int) - (b : Int))).toNat := by omega
+      rw [this]
+      omega
+
+theorem isFloorLog_scale (c n d : Nat) (hc : 0 < c) (e : Int) (K : Nat) :
+    IsFloorLog (c * n) (c * d) e K ↔ IsFloorLog n d e K := by
+  unfold IsFloorLog
+  rw [Nat.mul_assoc, Nat.mul_assoc, Nat.mul_assoc]
+  constructor
+  · rintro ⟨h1, h2⟩
+    exact ⟨Nat.le_of_mul_le_mul_left h1 hc, (Nat.mul_lt_mul_left hc).1 h2⟩
+  · rintro ⟨h1, h2⟩
+    exact ⟨Nat.mul_le_mul_left _ h1, (Nat.mul_lt_mul_left hc).2 h2⟩
+
+theorem floorLog2Q_scale (c n d : Nat) (hc : 0 < c) (hn : n ≠ 0) (hd : d ≠ 0) :
+    floorLog2Q (c * n) (c * d) = floorLog2Q n d := by
+  have hcn : c * n ≠ 0 := Nat.mul_ne_zero (by omega) hn
+  have hcd : c * d ≠ 0 := Nat.mul_ne_zero (by omega) hd
+  let K := bitLength (c * d) + bitLength d + 1
+  obtain ⟨k1, s1⟩ := floorLog2Q_spec (c * n) (c * d) hcn hcd K (by omega)
+  obtain ⟨k2, s2⟩ := floorLog2Q_spec n d hn hd K (by omega)
+  exact isFloorLog_unique n d _ _ K k1 k2 ((isFloorLog_scale c n d hc _ K).1 s1) s2
+
+theorem roundHalfEven_scale (c N D : Nat) (hc : 0 < c) : roundHalfEven (c * N) (c * D) = roundHalfEven N D := by
+  unfold roundHalfEven
+  rw [Nat.mul_div_mul_left _ _ hc, Nat.mul_mod_mul_left]
+  have h1 : (2 * (c * (N % D)) > c * D) ↔ (2 * (N % D) > D) := by
+    rw [show 2 * (c * (N % D)) = c * (2 * (N % D)) by rw [Nat.mul_left_comm]]
+    exact Nat.mul_lt_mul_left hc
+  have h2 : (2 * (c * (N % D)) = c * D) ↔ (2 * (N % D) = D) := by
+    rw [show 2 * (c * (N % D)) = c * (2 * (N % D)) by rw [Nat.mul_left_comm]]
+    exact Nat.mul_right_inj (by omega)
+  simp only [h1, h2]
+
+/-- the part of `roundQ` after the exponent has been found -/
+def roundCore (neg : Bool) (e : Int) (n d : Nat) : Nat :=
+  let s : Int := if e ≥ -1022 then 52 - e else 1074
+  let N := if s ≥ 0 then n * 2 ^ s.toNat else n
+  let D := if s ≥ 0 then d else d * 2 ^ (-s).toNat
+  let q := roundHalfEven N D
+  let base := if e ≥ -1022 then (e + 1022).toNat * 2 ^ 52 else 0
+  let bits := base + q
+  signOf neg + (if bits ≥ fInf then fInf else bits)
+
+theorem roundQ_pos (neg : Bool) (n d : Nat) (hn : n ≠ 0) (hd : d ≠ 0) :
+    roundQ neg n d = roundCore neg (floorLog2Q n d) n d := by
+  unfold roundQ roundCore
+  simp [hn, hd]
+
+theorem roundCore_scale (neg : Bool) (e : Int) (c n d : Nat) (hc : 0 < c) :
+    roundCore neg e (c * n) (c * d) = roundCore neg e n d := by
+  unfold roundCore
+  simp only
+  by_cases hs : (if e ≥ -1022 then 52 - e else (1074 : Int)) ≥ 0
+  · simp only [hs, if_true, Nat.mul_assoc, roundHalfEven_scale _ _ _ hc]
+  · simp only [hs, if_false, Nat.mul_assoc, roundHalfEven_scale _ _ _ hc]
+
+/-- F: `roundQ` depends on the value of the fraction only. -/
+theorem roundQ_scale (neg : Bool) (c n d : Nat) (hc : 0 < c) : roundQ neg (c * n) (c * d) = roundQ neg n d := by
+  by_cases hn : n = 0
+  · subst hn; simp [roundQ]
+  by_cases hd : d = 0
+  · subst hd; simp [roundQ]
+  rw [roundQ_pos neg _ _ (Nat.mul_ne_zero (by omega) hn) (Nat.mul_ne_zero (by omega) hd), roundQ_pos neg n d hn hd,
+    floorLog2Q_scale c n d hc hn hd, roundCore_scale neg _ c n d hc]
+
+theorem roundQ_congr (neg : Bool) (n1 d1 n2 d2 : Nat) (h1 : 0 < d1) (h2 : 0 < d2) (h : n1 * d2 = n2 * d1) :
+    roundQ neg n1 d1 = roundQ neg n2 d2 := by
+  rw [← roundQ_scale neg d2 n1 d1 h2, ← roundQ_scale neg d1 n2 d2 h1]
+  rw [Nat.mul_comm d2 n1, h, Nat.mul_comm d1 n2, Nat.mul_comm d2 d1]
+
 end Grafeo.QueryAgg
